@@ -30,8 +30,13 @@ func emit(v any) {
 	b, _ := json.Marshal(v)
 	b = append(b, '\n')
 	outMu.Lock()
-	os.Stdout.Write(b)
+	_, err := os.Stdout.Write(b)
 	outMu.Unlock()
+	if err != nil {
+		// the installed filter denies write(2) although every job policy allows it:
+		// report through the exit status, the only channel left
+		syscall.Exit(97)
+	}
 }
 
 func gettid() int {
@@ -358,6 +363,36 @@ func allStatus() []kjob.ThreadStatus {
 
 var stopSpinners int32
 
+func installEnosysFilter() string {
+	nr := uint32(317)
+	if runtime.GOARCH == "386" {
+		nr = 354
+	}
+	prog := []syscall.SockFilter{
+		{Code: 0x20, K: 0},                // ld [0]  (syscall number)
+		{Code: 0x15, Jt: 0, Jf: 1, K: nr}, // jeq #seccomp
+		{Code: 0x06, K: 0x00050000 | 38},  // ret ERRNO|ENOSYS
+		{Code: 0x06, K: 0x7fff0000},       // ret ALLOW
+	}
+	fp := syscall.SockFprog{Len: uint16(len(prog)), Filter: &prog[0]}
+	res := make(chan string, 1)
+	go func() {
+		runtime.LockOSThread()
+		defer runtime.UnlockOSThread()
+		if _, _, e := syscall.RawSyscall6(syscall.SYS_PRCTL, 38, 1, 0, 0, 0, 0); e != 0 {
+			res <- "prctl: " + e.Error()
+			return
+		}
+		r, _, e := syscall.RawSyscall(uintptr(nr), 1, 1 /* TSYNC */, uintptr(unsafe.Pointer(&fp)))
+		if e != 0 || r != 0 {
+			res <- fmt.Sprintf("seccomp: ret %d errno %v", r, e)
+			return
+		}
+		res <- ""
+	}()
+	return <-res
+}
+
 func run(job *kjob.Job) {
 	var releaseProbes []kjob.Probe
 	for i, st := range job.Steps {
@@ -431,6 +466,10 @@ func run(job *kjob.Job) {
 				ev.Idx = st.Thread
 				emit(ev)
 			}
+		case "outer-enosys":
+			// fault injection: from now on seccomp(2) fails with ENOSYS in every thread (an outer
+			// sandbox or an old kernel), everything else is allowed
+			emit(kjob.Event{Step: i, Ev: "outer-enosys", Err: installEnosysFilter()})
 		case "allstatus":
 			emit(kjob.Event{Step: i, Ev: "status", Status: allStatus()})
 		case "release":
